@@ -327,6 +327,13 @@ fn sched_cases() -> Vec<(Vec<(f64, i64)>, u64)> {
     }
     let fr = [1.5, 2.0, 2.9, 3.0];
     for a in fr { for b in fr { for c in fr { out.push((vec![(a, 1), (b, 2), (c, 3)], 5)); } } }
+    // far-future tasks next to near ones (seed C11o: a due test done in fewer bits): distances around 2^31, 2^32, 2^53, 2^63
+    let far = [2147483647.0, 2147483648.0, 2147483653.0, 3000000000.0, 4294967296.0, 4294967301.0, 9007199254740992.0, 9223372036854775808.0, 1.0e19];
+    for f in far {
+        out.push((vec![(f, 1)], 6));
+        out.push((vec![(2.0, 1), (f, 2), (4.0, 3)], 6));
+        out.push((vec![(f, 1), (f, 2), (3.0, 3)], 6));
+    }
     out
 }
 
@@ -839,6 +846,11 @@ fn schedvm_programs() -> Vec<(String, Vec<f64>, String)> {
             vec![0.0, 0.0, 1.0, 1.0, 1.0, 1.0, 1.0, 2.0, 2.0, 2.0], "a closure assigned to a global from inside a function is scheduled again after its queue has drained".to_string()));
     v.push(("let x = 0.0\nfn step(n){\n    x = x + n\n    | | { step(n+1.0) }@(now + n)\n}\nlet _ = step(1.0)\nfn dsp(){ x }\n".to_string(),
             vec![1.0, 3.0, 3.0, 6.0, 6.0, 6.0, 10.0, 10.0], "a chain of one-shot closures, each created by the task before it".to_string()));
+    // far-future tasks next to near ones (seed C11o): they must not fire within the run, the near ones fire on time
+    for far in ["2147483648.0", "3000000000.0", "4294967301.0"] {
+        v.push((format!("let x = 0.0\nfn near(){{\n  x = x + 1.0\n}}\nfn late(){{\n  x = x + 1000.0\n}}\nlate@{far}\nnear@3.0\nfn dsp(){{\n  x\n}}\n"),
+                vec![0.0, 0.0, 0.0, 1.0, 1.0, 1.0, 1.0, 1.0], format!("a task scheduled for sample {far} next to one for sample 3")));
+    }
     // boxed heap objects next to scheduled closures (seed C11n): the closure table and the heap are slot maps with the same
     // key type, so a function value's heap-wrapper handle may also be a valid key of an UNRELATED closure
     v.push(("type rec Seq = End | Step(float, Seq)\nfn total(s: Seq) -> float {\n    match s {\n        End => 0.0,\n        Step(v, rest) => v + total(rest)\n    }\n}\nlet melody = Step(6.0, End)\nfn makecounter(){\n    let x = 0.0\n    letrec gen = | |{\n        x = x+1.0\n        gen@(now+1.0)\n    }\n    let getter = | | {x}\n    gen@1.0\n    getter\n}\nlet x_getter = makecounter();\nfn dsp(){\n    x_getter() + total(melody) * 1000.0\n}\n".to_string(),
@@ -909,6 +921,65 @@ fn run_hotswap(a: &str, b: &str, n: usize, m: usize) -> Result<Vec<f64>, String>
         out.push(Machine::get_as_array::<f64>(m2.get_top_n(1))[0]);
     }
     Ok(out)
+}
+/// the WASM runtime's hot swap, driven the way the CLI drives it (prepare on a fresh engine: load, run main, snapshot the
+/// prewarmed global state, diff the two published dsp layouts -- identical layouts become the one whole-storage patch, as in
+/// FileRunner::build_required_state_patch_plan -- then WasmDspRuntime::try_hot_swap): n samples of A, swap, m samples of B
+fn run_wasm_hotswap(a: &str, b: &str, n: usize, m: usize) -> Result<Vec<f64>, String> {
+    use mimium_lang::{Config, ExecContext};
+    use mimium_lang::compiler::wasmgen::WasmGenerator;
+    use mimium_lang::runtime::{DspRuntime, ProgramPayload, Time};
+    use mimium_lang::runtime::wasm::engine::{WasmDspRuntime, WasmEngine};
+    let compile = |src: &str| -> Result<(Vec<u8>, _, _), String> {
+        let mut ctx = ExecContext::new([].into_iter(), None, Config::default());
+        ctx.prepare_compiler();
+        let ext_fns = ctx.get_extfun_types();
+        let mir = ctx.get_compiler().ok_or("no compiler")?.emit_mir(src)
+            .map_err(|e| e.iter().map(|x| x.get_message()).collect::<Vec<_>>().join("; "))?;
+        let sk = mir.get_dsp_state_skeleton().cloned().ok_or("dsp not found")?;
+        let bytes = WasmGenerator::new(std::sync::Arc::new(mir), &ext_fns).generate().map_err(|e| format!("wasmgen: {e}"))?;
+        Ok((bytes, sk, ext_fns))
+    };
+    let (abytes, ask, aext) = compile(a)?;
+    let (bbytes, bsk, bext) = compile(b)?;
+    let mut engine = WasmEngine::new(&aext, None).map_err(|e| format!("{e}"))?;
+    engine.load_module(&abytes).map_err(|e| format!("{e}"))?;
+    let mut rt = WasmDspRuntime::new(engine, None, Some(ask.clone()));
+    rt.run_main().map_err(|e| format!("{e}"))?;
+    let mut out = vec![];
+    for t in 0..n {
+        if rt.run_dsp(Time(t as u64)) != 0 { return Err("dsp failed".into()); }
+        out.push(rt.get_output(1).first().copied().unwrap_or(f64::NAN));
+    }
+    let mut e2 = WasmEngine::new(&bext, None).map_err(|e| format!("{e}"))?;
+    e2.load_module(&bbytes).map_err(|e| format!("{e}"))?;
+    let mut prewarm = WasmDspRuntime::new(e2, None, None);
+    prewarm.run_main().map_err(|e| format!("{e}"))?;
+    let prewarmed_global_state = prewarm.engine_mut().get_global_state_data().map(|d| d.to_vec()).ok_or("no global state")?;
+    let prepared_engine = Box::new(prewarm.into_engine());
+    let state_patch_plan = match state_tree::build_state_storage_patch_plan(ask.clone(), bsk.clone()) {
+        Some(p) => p,
+        None => {
+            let total_size = bsk.total_size() as usize;
+            state_tree::StateStoragePatchPlan { total_size, patches: vec![state_tree::patch::CopyFromPatch { src_addr: 0, dst_addr: 0, size: total_size }] }
+        }
+    };
+    let payload = ProgramPayload::WasmModule { bytes: bbytes.clone(), prepared_engine, dsp_state_skeleton: Some(bsk.clone()), state_patch_plan, prewarmed_global_state };
+    if !rt.try_hot_swap(payload) { return Err("hot swap refused".into()); }
+    for t in 0..m {
+        if rt.run_dsp(Time((n + t) as u64)) != 0 { return Err("dsp failed after the swap".into()); }
+        out.push(rt.get_output(1).first().copied().unwrap_or(f64::NAN));
+    }
+    Ok(out)
+}
+/// extra pairs for the WASM swap: layouts WITHOUT a common cell (seed C05o) -- the new program starts from a zeroed storage
+/// of the new size on both back ends
+fn disjoint_swap_programs() -> Vec<(String, String, usize, usize, String)> {
+    vec![
+        ("fn dsp(){ self + 1.0 }\n".to_string(), "fn dsp(){ mem(10.0) }\n".to_string(), 5, 4, "a self counter rewritten with mem (no common cell)".to_string()),
+        ("fn dsp(){ mem(3.0) + mem(4.0) }\n".to_string(), "fn dsp(){ delay(4.0, 7.0, 2.0) }\n".to_string(), 4, 6, "two mem cells replaced by one delay".to_string()),
+        ("fn dsp(){ delay(4.0, 7.0, 2.0) }\n".to_string(), "fn dsp(){ self + 2.0 }\n".to_string(), 4, 4, "a delay replaced by a self counter".to_string()),
+    ]
 }
 /// two delay cells of different sizes in one function: sizes (n1, n2), delay times (t1, t2)
 fn delay_pair_violation(n1: u64, t1: u64, n2: u64, t2: u64) -> Option<String> {
@@ -1456,6 +1527,26 @@ fn main() {
             }
         }
         println!("NONE tried={}", wasm_alloc_programs().len());
+        return;
+    }
+    if args.get(1).map(|s| s.as_str()) == Some("wasm-hotswap") {
+        // C05 / C08 through the WASM runtime's hot swap: after the swap the WASM runtime continues exactly as the VM does
+        let only: Option<usize> = args.get(2).and_then(|s| s.parse().ok());
+        let mut cases: Vec<(String, String, usize, usize, String)> = layout_programs().into_iter().map(|(a, b, n, ex, d)| { let m = ex.len(); (a, b, n, m, d) }).collect();
+        cases.extend(disjoint_swap_programs());
+        for (i, (a, b, n, m, desc)) in cases.iter().enumerate() {
+            if let Some(o) = only { if o != i { continue; } }
+            let vm = run_hotswap_quiet(a, b, *n, *m);
+            let wasm = run_wasm_hotswap(a, b, *n, *m);
+            match (&vm, &wasm) {
+                (Ok(v), Ok(w)) if v == w => {}
+                _ => {
+                    println!("FOUND index={i} value={desc:?} clause=C05[after a hot swap the state words are identical on the VM and the WASM runtime; the new storage is sized and laid out from the new layout] vm={vm:?} wasm={wasm:?}");
+                    return;
+                }
+            }
+        }
+        println!("NONE tried={}", cases.len());
         return;
     }
     if args.get(1).map(|s| s.as_str()) == Some("module-misc") {
